@@ -17,6 +17,133 @@ RENAMES = ('CommitStaging::commit', 'AtomicWriteFile::commit', 'std::fs::rename'
 ACQUIRE = ('FileLock::acquire_with_mode', 'FileLock::acquire', 'FileLock::try_acquire', 'FileLock::open_and_lock', 'FileLock::open_read_only')
 
 
+NEW_HANDLE = ('CommitStaging::clone_file', 'OpenOptions::open', 'File::open')
+ORIG, STAGED, UNKNOWN = 'lock of the original inode', 'lock of the staged inode', 'unknown lock'
+
+
+def lock_typestate(ctx, F, fn, renames):
+    """Forward may-analysis of which inode Memvid.lock is held on. Events: a store to Memvid.lock, or
+    mem::replace(&mut self.lock, x): STAGED when the new value comes from FileLock::acquire* applied to the staging /
+    re-opened handle, ORIG when it comes from the value previously taken out of self.lock. At every exit (Ok or Err):
+    after the rename succeeded the lock must be STAGED, otherwise ORIG."""
+    mb = lib.mut_borrows(fn)
+    saved = set()       # locals holding the lock taken out of self.lock
+    events = {}         # (bb, order) -> state
+
+    def classify(ops, at):
+        sl = lib.slice_back(fn, ops, through_calls=True, at=at, stop_locals=tuple(saved))
+        if sl.locals & saved:
+            return (ORIG, None)
+        acq = [c for c in sl.calls if c.is_(ACQUIRE)]
+        if acq:
+            s0 = lib.slice_back(fn, acq[0].args[:1], through_calls=True, at=(acq[0].bb, None))
+            return (STAGED, acq[0]) if any(c.is_(NEW_HANDLE) for c in s0.calls) else (UNKNOWN, acq[0])
+        if sl.locals & saved:
+            return (ORIG, None)
+        return (UNKNOWN, None)
+    for c in fn.calls():
+        if c.name == 'replace' and 'mem' in (c.callee or '') and c.args:
+            p = op_place(c.args[0])
+            tg = lib.mut_targets(fn, p.l) if p is not None and not p.p else []
+            if any(t.field_owners() and t.field_owners()[-1] == ('Memvid', 'lock') for t in tg):
+                saved |= {c.dest.l}
+    # aliases of the saved original (moves into Option, etc.)
+    changed = True
+    while changed:
+        changed = False
+        for bb, i, st in fn.stmts():
+            if st['rv']['k'] in ('use', 'agg') and st['lhs']['l'] not in saved and st['lhs']['l'] > fn.r['argc']:
+                for o in lib.rv_operands(st['rv']):
+                    q = op_place(o)
+                    if q is not None and q.l in saved and not st['lhs'].get('p'):
+                        saved.add(st['lhs']['l'])
+                        changed = True
+    acqs = []
+    for c in fn.calls():
+        if c.name == 'replace' and 'mem' in (c.callee or '') and c.args:
+            p = op_place(c.args[0])
+            tg = lib.mut_targets(fn, p.l) if p is not None and not p.p else []
+            if any(t.field_owners() and t.field_owners()[-1] == ('Memvid', 'lock') for t in tg):
+                stt, a = classify(c.args[1:2], (c.bb, None))
+                events[(c.bb, 10 ** 6)] = (stt, c.line)
+                if a is not None:
+                    acqs.append(a)
+    for st in lib.field_stores(fn, 'Memvid', 'lock'):
+        if st['lhs'].field_owners()[-1] != ('Memvid', 'lock'):
+            continue
+        stt, a = classify(lib.rv_operands(st['rv']), (st['bb'], st['idx']))
+        events[(st['bb'], st['idx'])] = (stt, st['line'])
+        if a is not None:
+            acqs.append(a)
+    ctx.evaluations += len(events) + len(fn.blocks)
+    if not events:
+        for r in renames:
+            ctx.bad('TYPESTATE-C17a', fn, 'after %s replaces the file at the memory\'s path, the handle keeps the lock it took on the old (now unlinked) inode: '
+                    'a second writer can lock and open the path while this handle is alive' % r.key.split('::')[-1], line=r.line,
+                    sink='Memvid.lock', detail='lock-not-reacquired-after-rename')
+        return
+    # forward propagation of the set of possible states
+    nb = len(fn.blocks)
+    inn = [set() for _ in range(nb)]
+    inn[0] = {ORIG}
+    out = [set() for _ in range(nb)]
+    by_block = {}
+    for (bb, order), ev in events.items():
+        by_block.setdefault(bb, []).append((order, ev))
+    work = [0]
+    while work:
+        b = work.pop()
+        cur = set(inn[b])
+        for order, (stt, ln) in sorted(by_block.get(b, [])):
+            cur = {stt}
+        if cur != out[b] or b == 0:
+            out[b] = cur
+            for sx in fn.succs(b):
+                if not cur <= inn[sx]:
+                    inn[sx] |= cur
+                    work.append(sx)
+    problems = []
+    n_exits = 0
+    for r in renames:
+        sb, how = fn.success_block(r)
+        for ex in fn.ret_assignments():
+            n_exits += 1
+            renamed = sb is not None and fn.dominates(sb, ex['bb'])
+            maybe_renamed = sb is not None and ex['bb'] in fn.reachable(sb)
+            states = out[ex['bb']] or inn[ex['bb']]
+            want = STAGED if renamed else ORIG
+            if renamed and states != {STAGED}:
+                problems.append((ex, 'after the rename the handle can still hold the %s' % ', '.join(sorted(states - {STAGED})), 'lock-not-reacquired-after-rename'))
+            elif not maybe_renamed and states != {ORIG}:
+                problems.append((ex, 'an exit without the rename (operation or rename failed) leaves the handle holding the %s: the memory file itself is unlocked and a second writer can open it'
+                                 % ', '.join(sorted(states - {ORIG})), 'lock-not-restored-on-failure'))
+    if problems:
+        seen = set()
+        for ex, msg, det in problems:
+            if det in seen:
+                continue
+            seen.add(det)
+            ctx.bad('TYPESTATE-C17a', fn, msg, line=ex['line'], sink='Memvid.lock', detail=det)
+    else:
+        a = acqs[0] if acqs else None
+        ctx.ok('TYPESTATE-C17a', fn, 'Memvid.lock follows the inode at the path on all %d exits (staged lock %s, installed only on paths where the rename succeeded or restored otherwise)' % (
+            n_exits, ('acquired at line %s' % a.line) if a is not None else ''), line=a.line if a is not None else None)
+    # the mode of the re-acquired lock must exclude writers
+    for a in acqs:
+        if a.is_('FileLock::acquire_with_mode') and len(a.args) > 1:
+            sl = lib.slice_back(fn, a.args[1:2], through_calls=True, at=(a.bb, None))
+            modes = {x.split('::')[-1] for x in sl.aggs if x.startswith('LockMode::')}
+            for k in sl.consts:
+                if 'promoted' in k:
+                    modes |= {x.split('::')[-1] for x in lib.promoted_summary(fn, k['promoted'])['aggs'] if x.startswith('LockMode::')}
+            if 'None' in modes:
+                ctx.bad('TYPESTATE-C17a', fn, 'the lock re-acquired on the staged inode is taken in mode None (no OS lock)', line=a.line, detail='staged-lock-mode-none')
+            elif modes or any(c.is_('FileLock::mode') for c in sl.calls):
+                ctx.ok('TYPESTATE-C17a', fn, 'staged lock mode %s excludes writers (they need the exclusive lock)' % (', '.join(sorted(modes)) or 'of the current lock'), line=a.line)
+            else:
+                ctx.lost('TYPESTATE-C17a', '%s: mode of the staged lock not recognised' % fn.key)
+
+
 def run(ctx):
     ctx.rule('TYPESTATE-C17a', 'after the memory file is replaced by rename, Memvid.lock is re-assigned to a lock on the new inode before Ok')
     ctx.rule('WMC-C17b', 'constructors pair file+lock; unlock only in Drop/mode changes; downgrade only when clean; upgrade before writable')
@@ -32,34 +159,8 @@ def run(ctx):
         if not owns:
             continue
         ctx.touch(fn, len(fn.blocks))
-        for r in rn:
-            n += 1
-            ctx.evaluations += 1
-            exits = [ex for ex in fn.ok_exits() if lib.call_success_dominates(fn, r, ex['bb'])]
-            if not exits:
-                # the rename's own result is returned / matched: use the Ok arm of the match on its result
-                sb, how = fn.success_block(r)
-                exits = [ex for ex in fn.ok_exits() if sb is not None and fn.dominates(sb, ex['bb'])]
-            stores = []
-            for st in lib.field_stores(fn, 'Memvid', 'lock'):
-                if st['lhs'].field_owners()[-1] != ('Memvid', 'lock'):
-                    continue
-                sl = lib.slice_back(fn, lib.rv_operands(st['rv']), through_calls=True, at=(st['bb'], st['idx']))
-                acq = [c for c in sl.calls if c.is_(ACQUIRE)]
-                if acq:
-                    stores.append((st, acq[0]))
-            bad = [ex for ex in exits if not any(fn.dominates(st['bb'], ex['bb']) for st, _ in stores)]
-            if not exits:
-                ctx.lost('TYPESTATE-C17a', '%s: no Ok exit after the rename' % fn.key)
-            elif bad:
-                ctx.bad('TYPESTATE-C17a', fn, 'after %s replaces the file at the memory\'s path, the handle keeps the lock it took on the old (now unlinked) inode: '
-                        'a second writer can lock and open the path while this handle is alive' % r.key.split('::')[-1], line=r.line,
-                        sink='Memvid.lock', detail='lock-not-reacquired-after-rename')
-            else:
-                st, acq = stores[0]
-                # the new lock is taken on the staging / new handle, before or after the rename, never on the saved original
-                s0 = lib.slice_back(fn, acq.args[:1], through_calls=True, at=(acq.bb, None))
-                ctx.ok('TYPESTATE-C17a', fn, 'lock re-acquired (%s at line %s) and installed on the rename\'s success path' % (acq.key.split('::')[-1], acq.line), line=st['line'])
+        n += len(rn)
+        lock_typestate(ctx, F, fn, rn)
     ctx.floor('TYPESTATE-C17a', n, 1, 'renames over the memory file in Memvid-owning functions')
     # ---- b: constructors
     ctor_callers = [f for f in F.fns.values() if f.calls_to('Memvid::open_locked')]
